@@ -188,6 +188,73 @@ Proof.
 Qed.
 Print Assumptions C39_pack_addr_faithful.
 
+(** *** secret values (DeriveSV).  The KDF input
+      len(secret):8 || secret || protocol:2 || epoch begin:4 || epoch end:4
+    determines the master secret, the protocol and the epoch (the length prefix makes the
+    variable-length secret unambiguous) *)
+Theorem C39_sv_input_injective : forall ms1 ms2 p1 p2 (e1 e2 : epoch),
+  N.of_nat (length ms1) < 2 ^ 64 -> N.of_nat (length ms2) < 2 ^ 64 ->
+  p1 < 2 ^ 16 -> p2 < 2 ^ 16 ->
+  fst e1 < 2 ^ 32 -> snd e1 < 2 ^ 32 -> fst e2 < 2 ^ 32 -> snd e2 < 2 ^ 32 ->
+  sv_input ms1 p1 e1 = sv_input ms2 p2 e2 -> ms1 = ms2 /\ p1 = p2 /\ e1 = e2.
+Proof. exact sv_input_inj. Qed.
+Print Assumptions C39_sv_input_injective.
+
+(** hence two secret values of one AS coincide only for the same protocol and epoch, unless
+    the KDF collides (reduction: equal secret values for different (protocol, epoch) exhibit
+    two different KDF inputs with the same output); this is also the oracle of the
+    secret-value cases, on the model *)
+Theorem C39_sv_separation : forall (kdf : bytes -> key) ms p1 e1 p2 e2,
+  N.of_nat (length ms) < 2 ^ 64 -> p1 < 2 ^ 16 -> p2 < 2 ^ 16 ->
+  fst e1 < 2 ^ 32 -> snd e1 < 2 ^ 32 -> fst e2 < 2 ^ 32 -> snd e2 < 2 ^ 32 ->
+  (forall k, derive_sv kdf ms p1 e1 = Some k -> derive_sv kdf ms p2 e2 = Some k ->
+     (p1 = p2 /\ e1 = e2) \/
+     (sv_input ms p1 e1 <> sv_input ms p2 e2 /\ kdf (sv_input ms p1 e1) = kdf (sv_input ms p2 e2))) /\
+  ((forall i j, kdf i = kdf j -> i = j) ->
+   sv_pair_ok p1 e1 p2 e2 (derive_sv kdf ms p1 e1) (derive_sv kdf ms p2 e2)
+              (derive_sv kdf ms p1 e1) (derive_sv kdf ms p2 e2) = true).
+Proof.
+  intros kdf ms p1 e1 p2 e2 L P1 P2 B1 E1 B2 E2. split.
+  - intros k D1 D2. unfold derive_sv in D1, D2. destruct ms as [|x ms]; [discriminate|].
+    assert (K : kdf (sv_input (x :: ms) p1 e1) = kdf (sv_input (x :: ms) p2 e2)) by congruence.
+    destruct (list_eq_dec N.eq_dec (sv_input (x :: ms) p1 e1) (sv_input (x :: ms) p2 e2)) as [E|NE].
+    + left. apply sv_input_inj in E as (_ & -> & ->); auto.
+    + right. auto.
+  - intros Inj. now apply sv_pair_ok_model.
+Qed.
+Print Assumptions C39_sv_separation.
+
+(** separation along the whole hierarchy: when the secret values are DeriveSV of the ASes'
+    master secrets, and neither the KDF nor the PRF collides, an AS-host key served for
+    (protocol, time, destination AS, host) can be served again only for the same protocol
+    (predefined or niche), the same epoch, the same destination AS and the same host address.
+    (For an arbitrary [sv] this fails: a secret value that ignores the protocol makes
+    protocol-specific and generic keys coincide.) *)
+Theorem C39_separation_full : forall (kdf : bytes -> key) (prf : key -> bytes -> key)
+    (ms : N -> bytes) (dur : N -> option Z),
+  (forall i j, kdf i = kdf j -> i = j) ->
+  (forall k k' i i', prf k i = prf k' i' -> k = k' /\ i = i') ->
+  forall loc1 loc2 p1 p2 t1 t2 src dst1 dst2 h1 h2 k e1 e2,
+  N.of_nat (length (ms src)) < 2 ^ 64 ->
+  p1 < 2 ^ 16 -> p2 < 2 ^ 16 -> p1 <> generic -> p2 <> generic ->
+  dst1 < 2 ^ 64 -> dst2 < 2 ^ 64 ->
+  engine_as_host prf (sv_of kdf ms) dur loc1 p1 t1 src dst1 h1 = ROk k e1 ->
+  engine_as_host prf (sv_of kdf ms) dur loc2 p2 t2 src dst2 h2 = ROk k e2 ->
+  p1 = p2 /\ e1 = e2 /\ dst1 = dst2 /\ pack_addr h1 = pack_addr h2.
+Proof. intros kdf prf ms dur Hk Hp. exact (as_host_keys_separate kdf prf ms dur Hk Hp). Qed.
+Print Assumptions C39_separation_full.
+
+(** the two no-collision hypotheses are satisfiable (toy scheme) *)
+Theorem C39_separation_full_hypotheses_satisfiable :
+  exists (kdf : bytes -> key) (prf : key -> bytes -> key),
+    (forall i j, kdf i = kdf j -> i = j) /\
+    (forall k k' i i', prf k i = prf k' i' -> k = k' /\ i = i').
+Proof.
+  exists (fun i => i), (fun k i => N.of_nat (length k) :: k ++ i).
+  split; [auto | exact toy_prf_inj].
+Qed.
+Print Assumptions C39_separation_full_hypotheses_satisfiable.
+
 (** *** acceptance window: a key selected at time [t] for timestamp [ts] belongs to one of
     the three epochs around [t]; the timestamp's absolute time w.r.t. that epoch lies in
     the acceptance window and in the epoch's validity extended by the grace period *)
